@@ -104,7 +104,7 @@ Proof.
   intros fs c t pk c' fs' W H n.
   pose proof (load_all_listing bytes kid fs c W) as [A1 [A2 [A3 [A4 A5]]]].
   pose proof (c_save_container xml bytes kid par kids mime fs c t pk) as Hc. rewrite H in Hc. cbn [fst] in Hc. subst c'.
-  set (c1 := c_load_missing bytes kid FIXED fs (c_listing bytes kid fs c) c) in *.
+  set (c1 := c_load_missing bytes kid FIXED fs (c_listing bytes kid FIXED fs c) c) in *.
   rewrite <- A1. unfold Pkgproof.cB.
   destruct (lookup n (parts _ c1)) as [[b|]|] eqn:Ln; [reflexivity|reflexivity|].
   rewrite (A5 n Ln).
